@@ -79,6 +79,27 @@ for k in ("C01", "C05", "C06", "C08", "C09", "C12", "C13", "C14", "C19", "C20"):
     CHECKS[k]["text"] += FAULTS
 for k in ("C02", "C03", "C06", "C09", "C10", "C11", "C12", "C13", "C14", "C19", "C20"):
     CHECKS[k]["text"] += CONC
+FUZZ = " Thorough tier only: the same property function also runs as a native coverage-guided fuzz target (go test -fuzz through rapid.MakeFuzz, 16 workers, VERIF_FUZZTIME seconds, fresh corpus); a failing input is reported through the same structured replay file."
+for k in ("C08", "C10", "C11", "C16", "C17", "C18"):
+    CHECKS[k]["text"] += FUZZ
+    if "native" not in CHECKS[k]["technique"]:
+        CHECKS[k]["technique"] += "; native coverage-guided fuzzing (go test -fuzz) of the same property function in the thorough tier"
+CHECKS["C19"]["text"] += " Thorough tier only: a native fuzz target (go test -fuzz) feeds raw bytes to ImportCollection as the file content; ill-formed content must fail without a trace, well-formed content must be imported exactly, the existing collection, its index and the catalog stay untouched."
+CHECKS["C19"]["technique"] += "; byte-level native fuzzing (go test -fuzz) of the import file in the thorough tier"
+EXTRA = {
+    "C05": " Crash targets include imports of 1100-2500 documents into a new collection (one operation: nothing of it may survive a kill inside it).",
+    "C13": " A dedicated part creates two collections whose name + index field spell the same text when joined by a separator (p / q<sep>r against p<sep>q / r) with shared document ids and checks scans, counts, index drops and collection drops on both.",
+    "C15": " The cursor contract also covers keys deleted again, a rolled-back transaction (no trace) and two cursors open at once in one read-only transaction (independent positions).",
+    "C18": " Has/Get of every path of the alphabet are compared with the reference lookup before and after Set (reads must not change the document), SetAll equals Set, Copy/AsMap show the same content, and document.Encode (what Insert does) must leave the document canonical and decode to it.",
+    "C09": " IterateDocs (the exported engine under ForEach/Count) must visit exactly the FindAll sequence as well.",
+    "C12": " Caller-supplied ids include the all-zero and all-F UUIDs; id-less documents of a batch built from one Go map must receive distinct ids.",
+    "C14": " Field alphabets include names differing only by a trailing blank or by case; after every catalog change criteria served by one index are combined with a sort on another indexed field.",
+}
+for k, v in EXTRA.items():
+    CHECKS[k]["text"] += v
+ARGS = " Every call's arguments (documents, update maps, query objects with type-exact literals) are compared before and after the call: clover must not alter what the caller handed in, apart from assigning a missing _id."
+for k in ("C01", "C02", "C03", "C06", "C09", "C11", "C12", "C13", "C14", "C19", "C20"):
+    CHECKS[k]["text"] += ARGS
 BUILT = ["C%02d" % i for i in range(1, 21)]
 CHECKS = {k: v for k, v in CHECKS.items() if k in BUILT}
 
